@@ -69,7 +69,9 @@ STMT_FORMS = [
     'CONST c = 1 / 0', 'CONST c = RND', 'CONST c = c', 'CONST c = LEN("a")', 'CONST c% = 40000', 'CONST c = 1 : c = 2',
     'CONST c = 1 : CONST c = 2', 'TYPE', 'TYPE t', 'TYPE t : END TYPE', 'TYPE t : a AS INTEGER : END TYPE',
     'TYPE t : a AS t : END TYPE', 'TYPE t : a AS nosuch : END TYPE', 'TYPE t : a AS INTEGER : a AS LONG : END TYPE',
-    'TYPE t : PRINT 1 : END TYPE', 'TYPE t : a AS STRING * 5 : END TYPE', 'TYPE t : a(5) AS INTEGER : END TYPE', 'TYPE 1',
+    'TYPE t : PRINT 1 : END TYPE', 'TYPE tq : n AS tq : END TYPE : DIM vq AS tq', 'TYPE tq : n AS tq : END TYPE : DIM vq(3) AS tq',
+    'TYPE ta : b AS tb : END TYPE : TYPE tb : a AS ta : END TYPE : DIM vq AS ta', 'x = (-8) ^ 1.5', 'x = (-8) ^ .5', 'x# = (-8#) ^ 2.5#',
+    'CONST cc = 1 : INPUT cc', 'CONST cc = 1 : READ cc', 'INPUT f', 'READ f', 'PRINT ERR', 'DIM big(2000000000)', 'n& = 2000000000 : DIM big(n&)', 'TYPE t : a AS STRING * 5 : END TYPE', 'TYPE t : a(5) AS INTEGER : END TYPE', 'TYPE 1',
     'DEFINT', 'DEFINT A', 'DEFINT A-Z', 'DEFINT Z-A', 'DEFINT A-', 'DEFINT 1', 'DEFINT A, B, C-D', 'DEFINT AB',
     'DECLARE', 'DECLARE SUB', 'DECLARE SUB s', 'DECLARE SUB s ()', 'DECLARE SUB s (a AS ANY)', 'DECLARE FUNCTION f% (a%)',
     'DECLARE SUB s (a() AS INTEGER)', 'DECLARE s', 'CALL', 'CALL s', 'CALL s()', 'CALL s(1)', 'CALL s(1, 2)', 'CALL nosub',
